@@ -175,7 +175,7 @@ class FileProxy:
         object.__setattr__(self, '_p', path)
         object.__setattr__(self, '_w', any(c in mode for c in 'wax+'))
         object.__setattr__(self, '_m', mode)
-        object.__setattr__(self, '_rs', False)
+        object.__setattr__(self, '_rs', 0)
 
     # -- intercepted ---------------------------------------------------------
     def write(self, data):
@@ -208,9 +208,9 @@ class FileProxy:
         return self._f.truncate(size)
 
     def read(self, *args):
-        if not self._rs:
-            object.__setattr__(self, '_rs', True)
-            emit('read', self._p, None)
+        if self._rs < 3:
+            object.__setattr__(self, '_rs', self._rs + 1)
+            emit('read', self._p, {'nth': self._rs})
         return self._f.read(*args)
 
     def close(self):
